@@ -5,6 +5,7 @@
 //!   ohv worker / exec-case                        internal
 
 mod core;
+mod harness;
 mod oracle;
 mod props;
 
@@ -13,6 +14,7 @@ use crate::core::{supervisor, worker, Tier};
 macro_rules! dispatch {
     ($id:expr, $f:ident ( $($arg:expr),* )) => {
         match $id {
+            "C01" => $f::<props::c01::C01>($($arg),*),
             "C20" => $f::<props::c20::C20>($($arg),*),
             other => {
                 eprintln!("unknown property id {other}");
